@@ -12,16 +12,24 @@ TRUST = ("Trusted base: python ast; the optilint resolver/CFG (validated on ever
 CLAIMS = {
     "C02": dict(
         category="other",
-        text=("Decides structural necessary conditions of 'stiffness = Hessian of the energy' on every path/option of "
-              "the three mechanics factories: (D1) link integrity of their call-graph cones incl. the gradient-hook "
-              "slot protocol, so every advertised option is executable; (D2) element_hess_func is jax.hessian w.r.t. "
-              "the element nodal field of the same element integral the energy uses, energy and stiffness get the same "
-              "density/hook/fields in each factory, each Newmark energy term is linearised at the field the energy "
-              "evaluates it at; (D3) per-block operands are restricted/scattered by the block's own element ids. "
-              "Numerical equality with jax.hessian and the COO arithmetic are NOT decided (no static bound on "
-              "floating-point results)."),
-        design_ref="DESIGN.md section 4, C02",
-        technique="static analysis: call-graph link checking, callback-slot arity, sibling (energy vs Hessian) argument-role comparison, block-restriction provenance over the AST"),
+        text=("Decides: (D1) link integrity (arity, keyword names, tuple-unpack widths, attributes of the containers) of every call in the cones of the "
+              "three mechanics factories; (D2/D3) identities between *results* of abstractly interpreting Mechanics.py and FunctionSpace.py "
+              "(rules/C02_model.py, an extension of optilint.tensoreval) on a 3-element, 5-node, 2-quadrature-point mesh whose fields, shape data, "
+              "volumes and internal variables are independent symbols, with material models, compute_shapes, linalg.solve and sqrt as uninterpreted "
+              "functions and jax.hessian / jacobian-of-gradient recorded as requests: the array an element-stiffness closure returns is, per element, "
+              "sum_k c_k * Hessian_k of functions of U[conns[e],:] (plus a U-independent shift) and nothing else depends on U; energy(U) - sum_e "
+              "G_e(U) is affine in U for each factory x mode2D x pressureProjectionDegree in (None, 0, 1), split into strain and inertia terms (a "
+              "different hook, density, Newmark parameter or linearisation point is named); every closure of a factory hands the material the same "
+              "displacement gradient, which is [[grad u,0],[0,0]] for plane strain and carries u_r/r for axisymmetric, and degree 0 changes the "
+              "kinematics as degree 1 does, consistently between sibling factories; the two FunctionSpace integrators satisfy their contract (hook "
+              "roles, density roles, quadrature-volume weights); the kinetic energy is quadratic in V; the multi-block factory agrees block by block "
+              "(non-contiguous blocks) with the single-block factory of that block's material (energy parts, Hessian requests, state update, initial "
+              "state, output fields), and a vmap over operands of different lengths (an unrestricted operand) is a derived defect. Proofs are for the "
+              "interpreted configuration (3-node elements, 2 quadrature points); code that branches on element order is explored for that "
+              "configuration only. A kernel that cannot be executed becomes an uninterpreted application: equalities stay sound, differences "
+              "become UNDECIDED. Numerical equality with jax.hessian, COO arithmetic and symmetry of the assembled matrix are NOT decided."),
+        design_ref="DESIGN.md section 4, C02 and section 11.8",
+        technique="static analysis: call-graph link checking; abstract interpretation on a symbolic small configuration with uninterpreted functions and recorded differentiation requests; polynomial identities between results"),
 }
 
 CLAIMS["C07"] = dict(
